@@ -342,13 +342,27 @@ static void point_locked(int op, int force)
     }
 }
 static __thread uint64_t t_rng;
+/* a watched variable: an actor that is about to LOAD it is held back for a while
+ * (with some probability), so that the others run through the window between
+ * this load and whatever the actor read just before */
+static const void *volatile g_watch_addr;
+static int g_watch_steps, g_watch_permille, g_watch_owner = -1;
+void abtv_watch_load(const void *addr, int steps, int permille)
+{
+    g_watch_addr = addr;
+    g_watch_steps = steps;
+    g_watch_permille = permille;
+    g_watch_owner = me;
+}
 static void hook(const void *addr, int op)
 {
-    (void)addr;
     if (g_mode == ABTV_MODE_SERIAL) {
         if (!g_active || me < 0)
             return;
         LOCK();
+        if (addr == g_watch_addr && addr && op == OP_LOAD && me != g_watch_owner && A[me].stalled_until <= g_steps &&
+            (int)(xs(&g_sched_rng) % 1000) < g_watch_permille)
+            A[me].stalled_until = g_steps + (uint64_t)g_watch_steps;
         /* 7 = after a store has been performed: a scheduling point that is neither progress nor polling */
         point_locked(op == 7 ? OP_POINT : op, 0);
         UNLOCK();
@@ -1022,6 +1036,7 @@ void abtv_run_begin(const char *scn, uint64_t seed)
 {
     g_scn = scn;
     g_seed = seed;
+    g_watch_addr = NULL;
     g_sched_rng = (seed + 1) * 0x9E3779B97F4A7C15ULL;
     if (!g_sched_rng)
         g_sched_rng = 1;
